@@ -439,7 +439,7 @@ def validation_rules(ck, fb):
     if not f:
         raise AnalysisBroken("anchor vanished: BinaryFileReader::internal_read_file")
     f = f[0]
-    need_names(f, ["out"], None, "V.ok")
+    outp = f.d["params"][0]["n"]
     oks = []
     for n, parents, pos in iter_sites(f):
         if n.get("k") == "ret":
@@ -454,7 +454,7 @@ def validation_rules(ck, fb):
         want = [("EOF chunk seen", lambda c, p: "reached_eof_chunk" in c and ((p is True and not c.startswith("!")))),
                 ("stream exhausted", lambda c, p: "stream_.remaining_bytes()" in c and (("!= 0" in c and p is False) or ("> 0" in c and p is False) or ("== 0" in c and p is True)))]
         for cnt, acc in (("n_verts", "n_vertices"), ("n_edges", "n_edges"), ("n_faces", "n_faces"), ("n_cells", "n_cells")):
-            want.append(("header %s equals mesh %s()" % (cnt, acc), (lambda c, p, cnt=cnt, acc=acc: ("file_header_.%s" % cnt) in c and ("out.%s()" % acc) in c and (("!=" in c and p is False) or ("==" in c and p is True)))))
+            want.append(("header %s equals mesh %s()" % (cnt, acc), (lambda c, p, cnt=cnt, acc=acc: ("file_header_.%s" % cnt) in c and ("%s.%s()" % (outp, acc)) in c and (("!=" in c and p is False) or ("==" in c and p is True)))))
         for label, pred in want:
             ok = any(pred(c, p) for c, p in fs)
             (ck.ok if ok else lambda r, w, t: ck.violate(r, w, t, "V.ok:%s" % label))("V.ok", f.loc(n), "return ReadResult::Ok requires: %s" % label)
@@ -508,6 +508,16 @@ def validation_rules(ck, fb):
     ]
     for label, ok in checks:
         (ck.ok if ok else lambda r, w, t: ck.violate(r, w, t, "V.chunk:%s" % label))("V.chunk", rk.where, "read_chunk rejects: %s" % label)
+    # optional chunks the reader does not understand are skipped (the format permits them): under !isMandatory() the
+    # payload decoder is moved to its end, otherwise the finished() test would reject the file
+    skips = [(b, i, n) for b, i, n in rk.nodes(("call",)) if n.get("pn", "") == DEC + "::skip" and b in rk.reach()]
+    nonmand = set()
+    for b in rk.reach():
+        at = [(estr(c), pol) for c, pol, e in rk.facts(b)]
+        if any("isMandatory()" in c and pol is False for c, pol in at):
+            nonmand.add(frozenset(at))
+    ok = len(nonmand) >= 2 and all(any(frozenset((estr(c), pol) for c, pol, e in rk.facts(b)) == g for b, i, n in skips) for g in nonmand)
+    (ck.ok if ok else lambda r, w, t: ck.violate(r, w, t, "V.chunk:skip"))("V.chunk", rk.where, "read_chunk skips the payload of optional chunks of unknown type or version (%d optional paths, %d skip calls)" % (len(nonmand), len(skips)))
     pad = [(b, i, n) for b, i, n in rk.nodes(("call",)) if n.get("pn", "").endswith("Decoder::padding")]
     pd = rk.postdominators()
     ok = bool(pad) and all(any("state_" in estr(c) for c, pol, e in rk.facts(b)) or True for b, i, n in pad)
